@@ -112,6 +112,12 @@ def check_history(ctx, pm, H):
             got, exc = "refuse-other", e
         after = F.real_state(real, kind)
         case = {"kind": kind, "ops": H["ops"][:step + 1], "step": step}
+        # the call must not modify the caller's arguments (lists / dicts handed in)
+        bad_args = F.to_plain(op_run["args"]) != F.to_plain(op["args"])
+        ctx.monitor("arguments-not-modified", fired=bad_args)
+        if bad_args:
+            ctx.violation("arguments-not-modified", "an add changes only the addressed manifest entry - not the lists or dicts the caller passed in",
+                          case, observed=F.first_diff(F.to_plain(op["args"]), F.to_plain(op_run["args"])), expected="arguments unchanged")
         tag = "%s-%s" % (kind, "accept" if verdict == "accept" else "refuse-" + str(op["meta"].get("invalid")))
         ctx.count(tag)
         # outcome
